@@ -30,6 +30,7 @@ class FnResult:
     obligations: list[Obligation] = field(default_factory=list)
     seconds: float = 0.0
     canary: str = ""
+    loops: int = -1  # number of loops in the verified body (the contract's invariants are keyed by loop ordinal)
 
     @property
     def discharged(self) -> int:
@@ -49,6 +50,8 @@ def verify_function(world: World, lib: SpecLib | None, c: Contract, timeout_ms: 
         mod, fn = c.source if c.source is not None else extract.get_function(c.fn, c.def_index)
         res.src_sha = mod.sha256
         res.fn_hash = extract.fn_hash(fn)
+        from .symex import _loops_in_order
+        res.loops = len(_loops_in_order(fn))
         machine_box: list[Machine] = []
 
         def run(ctx: PathCtx) -> None:
